@@ -147,6 +147,7 @@ end TrGauge
 /-- one trace is checked against BOTH gauge instances (run gauge and fallback gauge); a line is `ok` if the instance
     it concerns accepts it -/
 def suiteTrGauge (kvs : List (String × String)) (lines : List (String × String)) : List String :=
+  if kvNat kvs "dis" 0 == 1 then lines.map fun _ => "skip\t-" else   -- the kill switch is in Conc/Exec only
   let k := kvNat kvs "k" 2
   let ls := lines.map (·.1)
   let run := TrGauge.conform { gauge := "c.concurrentCommands", limit := "c.threadSafeConfig.Execution.MaxConcurrentRequests", marker := "in-run" }
@@ -636,6 +637,7 @@ def suiteTrRun (kvs : List (String × String)) (lines : List (String × String))
     rejection) judged against Conc/Run: admission reads, `Add(1)`, the limit read, the invocation, the reads of
     checkSuccess / checkErrFailure / attemptToOpen and the deferred `Add(-1)` on EVERY exit, in the model's order -/
 def suiteTrRunGauge (kvs : List (String × String)) (lines : List (String × String)) : List String :=
+  if kvNat kvs "dis" 0 == 1 then lines.map fun _ => "skip\t-" else   -- the kill switch is in Conc/Exec only
   let jobs : List Conc.Run.Job := ((kvGet kvs "acts").getD "").toList.map fun ch =>
     if ch == 's' then .call {} else if ch == 'p' then .call { panics := true } else .call { failed := true }
   (TrRun.conform "in-run" (Conc.Run.init false false false (kvInt kvs "mc" 10) jobs) (lines.map (·.1))).map fun r => r ++ "\t-"
@@ -649,14 +651,17 @@ open Conc.Exec
 def fbGaugeVar := "c.concurrentFallbacks"
 def fbLimitVar := "c.threadSafeConfig.Fallback.MaxConcurrentRequests"
 def fbDisabledVar := "c.threadSafeConfig.Fallback.Disabled"
+def disabledVar := "c.threadSafeConfig.CircuitBreaker.Disabled"
 
 def tracked (body : String) : Bool :=
-  TrRun.tracked body || body == "in-fallback" || (body.splitOn " ").any fun t => t == fbGaugeVar || t == fbLimitVar || t == fbDisabledVar
+  TrRun.tracked body || body == "in-fallback" || (body.splitOn " ").any fun t => t == fbGaugeVar || t == fbLimitVar || t == fbDisabledVar || t == disabledVar
 
 def expected (s : Shared) : Local → Option String
   | .op .. => none
   | .call l _ pc =>
     match pc with
+    | .gate => some s!"load {disabledVar} -> {s.disabled}"
+    | .passthru => some "in-run"
     | .running => (match l.pc with | .done _ => none | _ => TrRun.expected "in-run" s.r l)
     | .decide _ | .fbDeliverReject | .fbDeliver _ => none
     | .loadDisabled => some s!"load {fbDisabledVar} -> {s.fbDisabled}"
@@ -714,7 +719,7 @@ def suiteTrExecGauge (kvs : List (String × String)) (lines : List (String × St
     if ch == 's' then .exec {} {} else if ch == 'p' then .exec { panics := true } {}
     else if ch == 'f' then .exec { failed := true } {} else if ch == 'F' then .exec { failed := true } { fails := true }
     else .exec { failed := true } { panics := true }
-  (TrExec.conform (Conc.Exec.init false false false (kvInt kvs "mc" 10) (kvInt kvs "fbmc" 10) false jobs) (lines.map (·.1))).map fun r => r ++ "\t-"
+  (TrExec.conform (Conc.Exec.init false false false (kvInt kvs "mc" 10) (kvInt kvs "fbmc" 10) false jobs (kvNat kvs "dis" 0 == 1)) (lines.map (·.1))).map fun r => r ++ "\t-"
 
 /-- header of the `shed` scenario: init=(0|1) ops=<O|F|S per thread>; the closer admits nobody and never closes,
     the opener says open after every failure -/
